@@ -260,3 +260,62 @@ func H_C03_innerSpace() {
 	vfNote(out)
 	vfAssert(out == w1+"x"+w2+"y"+t3, "white space inside an action neither shows nor changes what is trimmed")
 }
+
+func c03Index(s, sub string) int {
+	for i := 0; i+len(sub) <= len(s); i++ {
+		if s[i:i+len(sub)] == sub {
+			return i
+		}
+	}
+	return -1
+}
+
+// H_C03_loneDelimiterChars: text made of the very characters delimiters are made of - the
+// first and last byte of the left action delimiter and of the left comment marker - placed
+// directly before and after a real action and a real comment, whenever they do not
+// themselves form a delimiter (an independent scan decides where the first action and the
+// first comment begin): the text is copied verbatim, the action rendered, the comment
+// dropped. Seven delimiter configurations; up to two such characters before and between,
+// one (thorough: two) after; thorough adds the delimiter's last byte to the alphabet.
+//
+//gosym:reach rendered
+func H_C03_loneDelimiterChars() {
+	cfg := []int{0, 1, 2, 3, 4, 5, 6}[ndChoice("cfg", 7)]
+	l, r, lc, rc := c02Left[cfg], c02Right[cfg], c03LeftC[cfg], c03RightC[cfg]
+	alpha := []string{l[:1], lc[:1], "x"}
+	max3 := 1
+	if vfTier() == 1 {
+		alpha = append(alpha, l[len(l)-1:])
+		max3 = 2
+	}
+	pick := func(name string, max int) string {
+		n := ndChoice(name+".len", max+1)
+		s := ""
+		for i := 0; i < n; i++ {
+			s += alpha[ndChoice(name+"."+string(rune('0'+i)), len(alpha))]
+		}
+		return s
+	}
+	t1, t2, t3 := pick("t1", 2), pick("t2", 2), pick("t3", max3)
+	act := l + `"v"` + r
+	com := lc + " c " + rc
+	src := t1 + act + t2 + com + t3
+	// the first action must be the one we wrote, the first comment likewise, and the tail
+	// must not open anything
+	vfAssume(c03Index(src, l) == len(t1))
+	lcFirst := c03Index(src, lc)
+	vfAssume(lcFirst < 0 || lcFirst > len(t1))
+	rest2 := src[len(t1)+len(act):]
+	vfAssume(c03Index(rest2, l) < 0 && c03Index(rest2, lc) == len(t2))
+	rest := rest2[len(t2)+len(com):]
+	vfAssume(c03Index(rest, l) < 0 && c03Index(rest, lc) < 0)
+	out, err := c03Render(c02Set(cfg), src)
+	vfReach("rendered")
+	vfNote(src)
+	vfAssert(err == nil, "template parses and renders")
+	if err != nil {
+		return
+	}
+	vfNote(out)
+	vfAssert(out == t1+"v"+t2+t3, "lone delimiter characters are text; the action and the comment next to them are still recognised")
+}
